@@ -56,10 +56,62 @@ def stream_loop(fn):
     return lps[0]
 
 
-def stream_rules(run, F, E):
+def stream_rules(run, F, E, semantic=None):
+    """Shape rules for the chunk loops. They are *diagnostic siblings* of C13.d: where C13.d has decided write<N>/read<N> for every
+    start cursor, a loop that is merely spelled differently (locals renamed, `x |= y` written `x = x | y`, ...) is not reported and
+    not refused here -- the obligation is recorded as discharged through C13.d; a shape that differs *and* fails C13.d is reported
+    by both rules, so the report says where the loop went wrong."""
+    semantic = semantic or {}
     shapes = {}
     for tk, m in (('BitWriteStreamT', 'write'), ('BitReadStreamT', 'read')):
         for fn in F.find(tk, m):
+            N = parse_width(fn)
+            sem = semantic.get(('w' if m == 'write' else 'r', N))
+            sub = Sub(run)
+            try:
+                stream_rule(sub, F, E, fn, tk, m, shapes)
+                broken = None
+            except AnalysisBroken as e:
+                broken = str(e)
+            inst = '%s<%s>::%s<%s>' % (tk, fn.targs[0] if fn.targs else '?', m, N)
+            if broken is not None and sem is None:
+                raise AnalysisBroken(broken)
+            if (broken is not None or not sub.all_ok()) and sem is True:
+                run.ob('C13.b', '%s: loop spelled differently from the recognised chunk loop; cursor/width lock step taken from C13.d (every start cursor)' % inst, True, where=fn.pat)
+                run.ob('C13.c', '%s: loop spelled differently from the recognised chunk loop; bit placement taken from C13.d (every start cursor)' % inst, True, where=fn.pat)
+                run.note('C13.b/c step aside for %s: %s' % (inst, broken or 'shape differs'))
+                if sub.key:
+                    shapes.pop((tk,) + sub.key, None)
+                continue
+            if broken is not None:
+                # unrecognised and C13.d reports it as wrong: C13.d's report stands
+                run.note('C13.b/c: %s not recognised (%s); see C13.d' % (inst, broken))
+                continue
+            sub.commit()
+    stream_agreement(run, F, E, shapes, semantic)
+
+
+class Sub:
+    """obligations of one function, committed or replaced as a whole"""
+    def __init__(self, run):
+        self.run = run
+        self.obs = []
+        self.key = None
+
+    def ob(self, *a, **k):
+        self.obs.append((a, k))
+
+    def all_ok(self):
+        return all(a[2] for a, k in self.obs)
+
+    def commit(self):
+        for a, k in self.obs:
+            self.run.ob(*a, **k)
+
+
+def stream_rule(run, F, E, fn, tk, m, shapes):
+    if True:
+        if True:
             n = ir.const_val({'k': 'c', 'v': 0})
             width = None
             ft = fn.d.get('ftargs') or []
@@ -108,6 +160,7 @@ def stream_rules(run, F, E):
             widthv = local_init('byteChunkWidth')
             if not (idx and start and widthv):
                 raise AnalysisBroken('%s: byteIndex / byteChunkStart / byteChunkWidth locals not found (unrecognised shape)' % fn.short)
+            run.key = (N, fn.targs[0] if fn.targs else '')
             shapes[(tk, N, fn.targs[0] if fn.targs else '')] = {
                 'byteIndex': ir.npp(idx['init'], decls), 'chunkStart': ir.npp(start['init'], decls), 'chunkWidth': ir.npp(widthv['init'], decls),
                 'fn': fn, 'by_target': by_target, 'decls': decls, 'rem': rem['n'], 'loop': lp}
@@ -136,6 +189,9 @@ def stream_rules(run, F, E):
                 okr = okr and len(icv) == 1 and ir.const_val(icv[0]['init']) == 0
                 run.ob('C13.c', '%s: deposits ((byte >> chunk start) & mask(W)) at an item cursor that starts at 0 and advances by W' % inst, okr,
                        where=fn.pat, detail=None if okr else det, key='BitReadStreamT::read extracts bits wrongly')
+
+
+def stream_agreement(run, F, E, shapes, semantic):
     # writer / reader agreement
     for (tk, N, cap), w in shapes.items():
         if tk != 'BitWriteStreamT':
@@ -145,6 +201,9 @@ def stream_rules(run, F, E):
             continue
         same = all(w[k] == r[k] for k in ('byteIndex', 'chunkStart', 'chunkWidth'))
         canon = w['byteIndex'] == '(_cursor / 8)' and w['chunkStart'] == '(_cursor % 8)'
+        if not (same and canon) and semantic.get(('w', N)) is True and semantic.get(('r', N)) is True:
+            run.ob('C13.c', 'write<%s>/read<%s> (capacity %s): layouts spelled differently; agreement taken from C13.d' % (N, N, cap), True, where=w['fn'].pat)
+            continue
         run.ob('C13.c', 'write<%s>/read<%s> (capacity %s) agree on byte index, chunk start and chunk width' % (N, N, cap), same and canon,
                where=w['fn'].pat, detail=None if same and canon else {'writer': {k: w[k] for k in ('byteIndex', 'chunkStart', 'chunkWidth')},
                                                                       'reader': {k: r[k] for k in ('byteIndex', 'chunkStart', 'chunkWidth')}},
@@ -197,6 +256,7 @@ def value_level(run, F, tier):
     cursors = range(0, cap) if tier == 'thorough' else list(range(0, 41)) + [63, 64, 100, 127, 128, 200, 222, 223, 247, 248, 254]
     I = bitprov.Interp(F)
     n_cases = 0
+    semantic = {}
     for N in range(1, 33):
         item_w = 8 if N <= 8 else 16 if N <= 16 else 32
         bad_w = bad_r = None
@@ -242,27 +302,31 @@ def value_level(run, F, tier):
                bad_w is None, where=writers[N].pat, detail=bad_w, key='write<N> does not place exactly its own field')
         run.ob('C13.d', 'read<%d>: returns buffer bits [cursor, cursor+%d), cursor += %d (all start cursors)' % (N, N, N), bad_r is None, where=readers[N].pat,
                detail=bad_r, key='read<N> does not return exactly the field at the cursor')
+        semantic[('w', N)] = bad_w is None
+        semantic[('r', N)] = bad_r is None
     run.count('bit-provenance cases (width x start cursor)', n_cases)
+    return semantic
 
 
 def run(run):
     cfgs = ['PS'] if run.tier == 'quick' else ['PS', 'S', 'PSHL', 'PSHVRDT']
     jobs = [('w_shared', c, v) for c in cfgs if 'P' in c for v in facts.variants(run.tier)]
     facts.prefetch(jobs)
+    semantic = {}
+    for v in facts.variants(run.tier):
+        F = facts.load('w_streams', 'S', v)
+        run.require(F.unknown == 0, 'unknown AST nodes')
+        semantic[v] = value_level(run, F, run.tier)
+        facts.drop(F)
     for (w, c, v) in jobs:
         F = facts.load(w, c, v)
         run.require(F.unknown == 0, 'unknown AST nodes')
         E = effects.Effects(F)
         run.count('fact units')
         bit_width(run, F)
-        stream_rules(run, F, E)
+        stream_rules(run, F, E, semantic[v])
         facts.drop(F)
         cfgmod.clear_cache()
-    for v in facts.variants(run.tier):
-        F = facts.load('w_streams', 'S', v)
-        run.require(F.unknown == 0, 'unknown AST nodes')
-        value_level(run, F, run.tier)
-        facts.drop(F)
     static_units.report(run, 'C13.a', 'ubitwidth')
     from gen import nfamily
     nfamily.report(run, run.tier, 'C12.b')
@@ -276,4 +340,8 @@ def run(run):
         'its own threshold tests induce (the checker first verifies that the argument is used in threshold tests only). The '
         'cursor/width lock-step rule and the writer/reader agreement are structural rules on the normalised expression trees of '
         'write<N>/read<N> for N in {1,2,7,8,9,16,17,31,32}. That the derived width suffices for every state count 1..255 is a '
-        'type-level fact (C12.b obligations). Value-level round trip and write locality are not decided.')
+        'type-level fact (C12.b obligations). C13.d decides the value-level clauses by bit-provenance abstract interpretation of '
+        'write<N>/read<N> for every width 1..32 and every start cursor of the 255-bit stream: symbolic bit identities flow through '
+        'the shifts, masks, ORs and narrowing conversions, so the verdict holds for every value; with the cursor rule this composes to '
+        'the round trip over every field sequence. Where C13.d decides, the shape rules C13.b/c act as diagnostics only and step '
+        'aside for loops that are spelled differently but proven right.')
